@@ -1,6 +1,7 @@
 package rules
 
 import (
+	"strings"
 	"fmt"
 	"go/token"
 	"sort"
@@ -109,6 +110,48 @@ func c14(r *engine.Report, p *engine.Program) {
 				}
 				_ = parts
 			}
+		}
+		// the lock's identity is the inode of <status>.lock: nobody removes, renames or recreates that path
+		{
+			var bad []string
+			isLockPath := func(v ssa.Value) bool {
+				v = engine.Unwrap(v)
+				for i := 0; i < 4; i++ {
+					if bo, isB := v.(*ssa.BinOp); isB && bo.Op == token.ADD {
+						if s0, isC := engine.ConstString(bo.Y); isC && strings.HasSuffix(s0, ".lock") {
+							return true
+						}
+						v = engine.Unwrap(bo.X)
+						continue
+					}
+					if s0, isC := engine.ConstString(v); isC && strings.HasSuffix(s0, ".lock") {
+						return true
+					}
+					if c, isCall := v.(*ssa.Call); isCall && (engine.IsCallTo(c.Common(), "path.Join") || engine.IsCallTo(c.Common(), "path/filepath.Join")) {
+						// variadic: last element of the slice literal — look for a ".lock" constant among stores
+						return false
+					}
+					break
+				}
+				return false
+			}
+			p.AllInstrs(func(fn *ssa.Function, in ssa.Instruction) {
+				if engine.IsMock(fn) || !inPkg(fn, "workceptor") {
+					return
+				}
+				ci, isCall := in.(ssa.CallInstruction)
+				if !isCall || !engine.IsCallTo(ci.Common(), "os.Remove", "os.RemoveAll", "os.Rename", "os.Truncate", "os.Create", "os.WriteFile") {
+					return
+				}
+				for _, a := range ci.Common().Args {
+					if isLockPath(a) {
+						bad = append(bad, engine.FuncName(fn)+" at "+p.Pos(in.Pos()))
+					}
+				}
+			})
+			r.Check("R2-lock-around-open", "status lock file: never removed, renamed or recreated", token.NoPos, len(bad) == 0,
+				"no os.Remove/RemoveAll/Rename/Truncate/Create/WriteFile call in workceptor names a *.lock path (a unit directory is removed as a whole only by Release)",
+				"the lock file is unlinked or replaced in "+strings.Join(bad, ", ")+": the advisory lock is tied to the inode, so a party holding or waiting on the old file and a party opening the new one are inside the read-modify-write section together (lost updates)")
 		}
 		r.Check("R2-lock-around-open", "lockStatusFile: lock file is <filename>.lock via lockedfile.OpenFile", lsf.Pos(), ok,
 			"daemon and runner lock the same companion file", "the lock file name is no longer <status file>.lock or lockedfile is no longer used")
